@@ -442,6 +442,22 @@ def memberStep (c : Val) (name : Bytes) : R Val :=
 /-- … as an evaluator action: it never touches the state -/
 def memberOf (c : Val) (name : Bytes) : EM Val := fun s => (memberStep c name, s)
 
+/-- `calleeRootName`: the name the parser put at the root of a callee chain (`assignCallee`), else `dflt` -/
+def calleeRoot : Expr → Bytes → Bytes
+  | .ident i, _ => i.base.getD (i.segs.head?.getD [])
+  | .idx _ (some l) _ _ _, d => calleeRoot l d
+  | .call _ (some c) _ _ _ _, d => calleeRoot c d
+  | .call _ none _ f _ _, d => calleeRoot f d
+  | _, d => d
+
+/-- `rv.MapIndex(index)` is invalid: the key is not in the map (then `a[k].b` is nil and `b` is not evaluated) -/
+def mapKeyMissing (left index : Val) : EM Bool :=
+  match left with
+  | .map _ _ addr => do
+      let es ← heapMap addr
+      pure (mapLookup index es).isNone
+  | _ => pure false
+
 def opStr (opb : Bytes) : String := String.ofList (opb.map fun c => Char.ofNat c.toNat)
 
 mutual
@@ -697,7 +713,20 @@ def evalIndex : Nat → Option Expr → Option Expr → Option Expr → Option E
     | some ve => do
         let value ← evalExpr fuel (some ve)
         updateIndex left index value
-    | none => accessIndex left index callee.isSome
+    | none =>
+      match callee with
+      | none => accessIndex left index false
+      | some ce => do
+          -- `evalIndexCallee`: the element is bound, in a fresh child scope holding a copy of the caller's
+          -- variables, under the name at the root of the callee chain; the callee is evaluated there
+          let elem ← accessIndex left index false
+          if (← mapKeyMissing left index) then pure .nil
+          else
+            let octx ← getCur
+            let c ← ctxNewChild octx
+            copyFrame octx c
+            ctxSetIn c (calleeRoot ce (match l with | some le => pExpr le | none => [])) elem
+            withCtx c (evalExpr fuel (some ce))
 
 /-- `evalUserFunction`: arguments are evaluated in the caller's scope, then bound in a fresh child scope -/
 def evalUserFn : Nat → List Ident → Block → List (Option Expr) → EM Val
